@@ -48,6 +48,7 @@ class Ctx:
         self.tq = 0.0
         self.fresh_id = 0
         self.events = []      # warnings, stub calls etc. recorded by harnesses
+        self.swallowed = []   # exceptions CPython swallowed inside __del__
         self.nbranch = 0
 
     # -- solver access
@@ -358,17 +359,27 @@ def symisinstance(obj, cls):
 # --------------------------------------------------------------------------
 # exploration
 
+def _unraisable(info):
+    if CTX is not None:
+        CTX.swallowed.append(info.exc_value)
+
+
 def run_path(harness, prefix):
     """Run one path of `harness` with the decision `prefix`.
 
     Returns a dict: out (harness result or None), status, work, nq, tq.
     """
     global CTX
+    import sys
+    sys.unraisablehook = _unraisable
     CTX = Ctx(prefix)
     status = 'ok'
     out = None
     try:
         out = harness.run()
+        for e in CTX.swallowed:
+            if isinstance(e, (Abort, OutOfBound, Inconclusive)):
+                raise e
     except Abort:
         status = 'abort'
     except OutOfBound as e:
